@@ -63,6 +63,11 @@ def builder_closures(prog):
 
 def check(ctx):
     prog = ctx.prog
+    W1 = ctx.rule("W1", "wire shape of the JWS envelope and protected header (RFC 8555 6.2: alg, nonce, url, exactly one of jwk/kid) and of the account/key-change payloads, as written by the derived Serialize impls")
+    from .wire_shape import check_shapes
+    from .wire_shape import check_read_shapes
+    check_read_shapes(ctx, W1, ["acmed::acme_proto::structs::directory::Directory", "acmed::acme_proto::structs::directory::DirectoryMeta"])
+    check_shapes(ctx, W1, ["acmed::jws::JwsData", "acmed::jws::JwsProtectedHeader", "acmed::acme_proto::structs::account::Account", "acmed::acme_proto::structs::account::AccountKeyRollover"])
     pb, sends, builder, upd = post_structure(prog)
     R1 = ctx.rule("R1", "the POST body is the data builder's output; the posted URL and the builder's url argument are the same parameter")
     ctx.floor(R1, "data builder call in http::post", len(builder), 1)
